@@ -417,7 +417,8 @@ impl SimdHuffmanEncoder {
         let mut bit_buffer = BitBuffer::with_capacity(estimated_bits);
 
         // Process in batches for better cache utilization
-        for chunk in data.chunks(self.config.batch_size) {
+        // `batch_size` is a plain configuration field: 0 means "no batching", not a panic in `chunks`
+        for chunk in data.chunks(self.config.batch_size.max(1)) {
             for &symbol in chunk {
                 let code = symbol_codes[symbol as usize];
                 let length = symbol_lengths[symbol as usize];
